@@ -31,3 +31,24 @@ Theorem C14_call_specification :
     (if Nat.leb k (cap pair s) then cap pair s else if allow then k else cap pair s).
 Proof. exact step_intersect. Qed.
 Print Assumptions C14_call_specification.
+
+(* ---- the two workspaces of the compiled TRIANGLE intersection (segment ends, segments), with up to two resizes ---- *)
+From BZ Require Model.WorkspaceTri Theory.WorkspaceTriTheory.
+(* after ANY history (other inputs, failing calls, resets to any sizes) a call with at least two resizes allowed returns tisect of ITS
+   arguments: one resize for the segment-ends buffer, one for the segments buffer always suffice *)
+Theorem C14_triangle_history_independence :
+  forall (input seg : Type) (tisect : input -> list (list seg)) (history : list (WorkspaceTri.op input)) (x : input) (r : nat),
+  snd (WorkspaceTri.step input seg tisect (fst (WorkspaceTri.run input seg tisect (WorkspaceTri.init seg) history))
+         (WorkspaceTri.Intersect input x (S (S r)))) = WorkspaceTri.Result seg (tisect x).
+Proof. exact WorkspaceTriTheory.history_independence. Qed.
+Print Assumptions C14_triangle_history_independence.
+(* with ANY number of resizes and ANY state of the buffers the outcome is the result or one of the two documented size errors with the
+   exact numbers; a cell that was not written during this call is never read (the read of the last segment end before the second
+   resize included) *)
+Theorem C14_triangle_call_outcomes :
+  forall (input seg : Type) (tisect : input -> list (list seg)) (r : nat) (s : WorkspaceTri.state seg) (x : input),
+  snd (WorkspaceTri.call input seg tisect r s x) = WorkspaceTri.Result seg (tisect x) \/
+  (exists e, snd (WorkspaceTri.call input seg tisect r s x) = WorkspaceTri.EndsTooSmall seg (length (tisect x)) e) \/
+  (exists g, snd (WorkspaceTri.call input seg tisect r s x) = WorkspaceTri.SegsTooSmall seg (WorkspaceTri.total seg (tisect x)) g).
+Proof. exact WorkspaceTriTheory.call_outcome. Qed.
+Print Assumptions C14_triangle_call_outcomes.
